@@ -111,7 +111,7 @@ def run(tier, seed):
     for i in range(3 if tier == "quick" else 12):   # scans against continuous replacement, scanners stalled inside their calls
         runs.append(("scanstorm_%d" % i, [fxa, "conc", "--mode", "scanstorm", "--out", os.path.join(rd, "asans_%d.ndjson" % i),
                                           "--seed", str(rng.randrange(1 << 30)), "--millis", "2500" if tier == "quick" else "6000",
-                                          "--keys", str([16, 4, 64][i % 3]), "--stallmask", str([63, 31, 127][i % 3])]))
+                                          "--keys", str([16, 700, 64][i % 3]), "--stallmask", str([63, 31, 127][i % 3])]))
     # the crate's other safe public type with unsafe inside: the aligned I/O buffer, through safe calls only
     for i in range(2 if tier == "quick" else 8):
         runs.append(("api_%d" % i, [fxa, "apisurface", "--seed", str(rng.randrange(1 << 30)), "--rounds", "300"]))
